@@ -591,6 +591,14 @@ Qed.
 Definition ranking (order : list sortspec) (aggf : list Z) (hits : list rawhit) : list hit :=
   isort (compare (descs_of order)) (prepare_all (order_fields order ++ aggf) order 0 hits).
 
+(* the preallocation never panics for non-negative arguments, whatever size+skip is relative to
+   PreAllocSizeSkipCap (the generated constant only has to be >= -1) *)
+Lemma backing_size_ok size skip : 0 <= size + skip -> (backing_size size skip <? 0) = false.
+Proof.
+  intro H. unfold backing_size, prealloc_size_skip_cap.
+  destruct (_ <? size + skip); lia.
+Qed.
+
 Section Requests.
   Context {B : Type}.
   Variable consume : hit -> B -> B.
@@ -604,7 +612,7 @@ Section Requests.
     Ok (firstn (Z.to_nat n) (skipn (Z.to_nat from) (ranking order aggf hits))).
   Proof.
     intros Hn Hf. unfold topn_search, request_collector, direct_collector.
-    replace ((n + from + 1 <? 0) || (from <? 0)) with false by lia.
+    replace ((backing_size n from <? 0) || (from <? 0)) with false by (rewrite backing_size_ok by lia; lia).
     cbn [rbind]. unfold run_collector. cbn [c_after new_collector rmap rbind].
     f_equal. rewrite collect_spec; [|apply new_store_empty | reflexivity].
     cbn [c_reverse c_skip c_cap c_order new_collector]. unfold kept.
@@ -697,7 +705,7 @@ Section AfterPage.
              (filter (after_key (descs_of order) key) (prepare_all (order_fields order ++ aggf) order 0 hits)))).
   Proof.
     intros Hn Hk. unfold topn_search, request_collector, direct_collector.
-    replace ((n + 0 + 1 <? 0) || (0 <? 0)) with false by lia.
+    replace ((backing_size n 0 <? 0) || (0 <? 0)) with false by (rewrite backing_size_ok by lia; lia).
     cbn [rbind]. unfold run_collector. cbn [c_after c_order c_needed new_collector].
     replace (forallb _ _) with true.
     - cbn [rmap rbind]. f_equal. rewrite collect_spec; [|apply new_store_empty | reflexivity].
@@ -841,7 +849,7 @@ Section BeforePage.
                      (prepare_all (order_fields order ++ aggf) order 0 hits))))).
   Proof.
     intros Hn Hk. unfold topn_search, request_collector, direct_collector.
-    replace ((n + 0 + 1 <? 0) || (0 <? 0)) with false by lia.
+    replace ((backing_size n 0 <? 0) || (0 <? 0)) with false by (rewrite backing_size_ok by lia; lia).
     cbn [rbind]. unfold run_collector. cbn [c_after c_order c_needed new_collector].
     rewrite order_fields_reverse, prepare_all_reverse, descs_of_reverse.
     replace (forallb _ _) with true.
@@ -1113,3 +1121,15 @@ Example paging_covers_ex :
     = Ok [110; 105; 100; 108; 103; 111; 106; 101; 109; 104; 107; 102] /\
   keys_distinctb (descs_of ex_order2) (prepare_all (order_fields ex_order2) ex_order2 0 ex12u) = true.
 Proof. vm_compute. split; reflexivity. Qed.
+
+(* beyond PreAllocSizeSkipCap: 1100 matches with heavy ties, the page [995, 1005) and a request
+   for 1101 hits; the preallocation cap bounds make() only, never what the collector retains *)
+Definition exdeep : list rawhit :=
+  map (fun i => let z := Z.of_nat i in {| r_doc := z; r_score := 0; r_dv := []; r_tab := [Some [ z mod 7 ]] |}) (seq 0 1100).
+
+Example topn_slice_deep_ex :
+  (prealloc_size_skip_cap <? 995 + 10) = true /\
+  rmap (fun r => map h_doc (fst r)) (topn_search (fun _ (b : unit) => b) 10 ex_order1 (PFrom 995) [] tt exdeep)
+    = Ok [370; 377; 384; 391; 398; 405; 412; 419; 426; 433] /\
+  rmap (fun r => length (fst r)) (topn_search (fun _ (b : unit) => b) 1101 ex_order1 (PFrom 0) [] tt exdeep) = Ok 1100%nat.
+Proof. vm_compute. repeat split. Qed.
